@@ -24,7 +24,7 @@ pub fn run(tier: Tier) -> i32 {
     for slots in [1usize, 2] {
         let buffers: Vec<usize> = (0..slots + 3).map(|i| 4 + i).collect();
         let sys = rxmodel::Sys::new(slots, 4, buffers, true);
-        let (max_states, max_depth) = if tier.thorough() { (4_000_000, 64) } else if slots == 1 { (400_000, 64) } else { (250_000, 5) };
+        let (max_states, max_depth) = if tier.thorough() { (4_000_000, 64) } else if slots == 1 { (400_000, 64) } else { (700_000, 9) };
         let ex = explore(&sys, &Limits { max_states, max_depth }, &rep, &format!("receiver-{}-slots", slots));
         let k = ex.states.len();
         for i in [k / 2, k - 1] {
